@@ -27,6 +27,7 @@ func init() {
 			{ID: "C16.4", Doc: "responses are delivered unless the traversal was stopped", Floor: 2, Run: c16r4},
 			{ID: "C16.5", Doc: "announce_peer arguments", Floor: 6, Run: c16r5},
 			{ID: "C16.6", Doc: "the lookup under the announce can stall and stop: every in-flight slot taken is given back (shared with C03.4)", Floor: 5, Run: c03r4},
+			{ID: "C16.7", Doc: "replies are matched to queries by full address and transaction id, so the token kept for a node is that node's (shared with C07.1)", Floor: 6, Run: c07r1},
 		},
 	})
 }
@@ -251,6 +252,57 @@ func c16r3(w *World, rr *RuleRun) {
 			}
 			return false, "no announcePeerOpts ≠ nil fact"
 		})
+	}
+	// the set announced to is the FINAL closest set: every read of the traversal's Closest() in the
+	// announce flow happens after the receive from Stopped() - in the completion goroutine itself,
+	// or inside a function the goroutine calls after that receive
+	closestM := w.P.Func("(*traversal.Operation).Closest")
+	nCl := 0
+	for _, site := range w.AllCallsTo(w.P.LibFuncs, closestM) {
+		c := callInstrCommon(site)
+		if len(c.Args) == 0 || !hasFieldAnywhere(w.TS.Of(c.Args[0]), travF) {
+			continue // some other traversal's result set
+		}
+		nCl++
+		var at ssa.Instruction = site
+		okAfter := false
+		for depth := 0; depth < 4 && at != nil; depth++ {
+			f := at.Parent()
+			if f == comp || within(f, comp) {
+				// climb closures up to comp
+				for f != comp && f.Parent() != nil {
+					// the closure is invoked (or passed as callback) at its creation point in the parent
+					var mk ssa.Instruction
+					eachInstr([]*ssa.Function{f.Parent()}, func(_ *ssa.Function, i2 ssa.Instruction) {
+						if m, ok := i2.(*ssa.MakeClosure); ok && m.Fn == f {
+							mk = m
+						}
+					})
+					if mk == nil {
+						break
+					}
+					at, f = mk, f.Parent()
+				}
+				okAfter = f == comp && PrecededBy(at, isStoppedRecv)
+				break
+			}
+			// a named function: continue at its call sites (all of them must qualify; take the only one)
+			g := enclosingNamed(f)
+			var sites []*Edge
+			for _, e := range w.CG.CallersOf(g) {
+				if !e.Callback && w.P.IsLib(e.Caller) {
+					sites = append(sites, e)
+				}
+			}
+			if len(sites) != 1 || sites[0].Mode != ModeSync {
+				break
+			}
+			at = sites[0].Site
+		}
+		rr.At(w, site, "the closest set is read only after the traversal reported Stopped", okAfter, "")
+	}
+	if nCl == 0 {
+		rr.Oblige(shortFuncName(ac), "the closest set is read only after the traversal reported Stopped", w.P.Pos(ac.Pos()), false, "no read of the announce traversal's Closest()")
 	}
 	for _, b := range comp.Blocks {
 		for _, ins := range b.Instrs {
